@@ -28,6 +28,7 @@ go build -tags verif -overlay ../.build/overlay.json -o ../.build/verif ./cmd/ve
 (cd ../tools/maprange && go build -o ../../.build/maprange .)
 rm -rf ../.build/mapr
 ../.build/maprange /repo/go "$(cd .. && pwd)/.build/mapr" > ../.build/maprange.log
+go run ./cmd/lockpoints /repo/go "$(cd .. && pwd)/.build/lockpoints_main.go"
 python3 - "$EXPDIR" "$OV" <<'EOP'
 import json,sys,os
 expdir,ov=sys.argv[1],sys.argv[2]
@@ -37,6 +38,9 @@ m[expdir+'/expect.go']=ov+'/expect.go'
 m[expdir+'/codes.go']=ov+'/empty.go'
 m[expdir+'/codes_string.go']=ov+'/empty.go'
 m['/repo/go/pkg/verifmap/order.go']=os.path.join(os.getcwd(),'overlay','verifmap','order.go')
+m['/repo/go/pkg/verifsched/sched.go']=os.path.join(os.getcwd(),'overlay','verifsched','sched.go')
+assert '/repo/go/pkg/device/main.go' not in m, "device/main.go has a range over a map now: merge the two rewrites"
+m['/repo/go/pkg/device/main.go']=os.path.join(build,'lockpoints_main.go')
 json.dump({'Replace':m},open(os.path.join(build,'overlay-map.json'),'w'),indent=1)
 EOP
 go build -tags "verif verifmap" -overlay ../.build/overlay-map.json -o ../.build/verif-map ./cmd/verif
